@@ -46,24 +46,6 @@ Ltac sub H arg :=
   pose proof (H arg) as R; cbn [length] in R;
   match type of R with ?c -> _ => let C := fresh in assert (C : c) by lia; specialize (R C); clear C end.
 
-Lemma u_unary f ts : p_unary (S f) ts =
-  match ts with
-  | TBang :: _ =>
-      let '(n, ts1) := count_prefix is_bang ts in
-      match p_member f ts1 with
-      | POk m ts2 => POk (if Nat.odd n then ECall $"!_" None [m] else m) ts2
-      | r => r
-      end
-  | TMinus :: ts0 =>
-      if is_number_tok ts0 then p_member f ts
-      else let '(n, ts1) := count_prefix is_minus ts in
-           match p_member f ts1 with
-           | POk m ts2 => POk (if Nat.odd n then ECall $"-_" None [m] else m) ts2
-           | r => r
-           end
-  | _ => p_member f ts
-  end.
-Proof. reflexivity. Qed.
 
 Lemma count_prefix_len P ts : length (snd (count_prefix P ts)) <= length ts.
 Proof.
@@ -197,155 +179,13 @@ Proof.
 Qed.
 End Step.
 
-Lemma u_postfix f e ts : p_postfix (S f) e ts =
-  match ts with
-  | TDot :: TIdent id :: TLParen :: ts1 =>
-      match p_args f ts1 with
-      | POk args ts2 =>
-          match mk_call id (Some e) args ts2 with
-          | POk e' ts3 => p_postfix f e' ts3
-          | r => r
-          end
-      | PFail => PFail
-      | PFuel => PFuel
-      end
-  | TDot :: TIdent id :: ts1 => p_postfix f (ESelect e id false) ts1
-  | TDot :: TEscIdent id :: ts1 => p_postfix f (ESelect e id false) ts1
-  | TLBracket :: TQuestion :: _ => PFail
-  | TLBracket :: ts1 =>
-      match p_expr f ts1 with
-      | POk i (TRBracket :: ts2) => p_postfix f (ECall $"_[_]" None [e; i]) ts2
-      | POk _ _ => PFail
-      | PFail => PFail
-      | PFuel => PFuel
-      end
-  | _ => POk e ts
-  end.
-Proof. reflexivity. Qed.
 
-Lemma u_args f ts : p_args (S f) ts =
-  match ts with TRParen :: ts1 => POk [] ts1 | _ => p_args_rest f [] ts end.
-Proof. reflexivity. Qed.
 
-Lemma u_args_rest f acc ts : p_args_rest (S f) acc ts =
-  match p_expr f ts with
-  | POk a (TComma :: ts1) => p_args_rest f (a :: acc) ts1
-  | POk a (TRParen :: ts1) => POk (rev' (a :: acc)) ts1
-  | POk _ _ => PFail
-  | PFail => PFail
-  | PFuel => PFuel
-  end.
-Proof. reflexivity. Qed.
 
-Lemma u_elems f acc ts : p_elems (S f) acc ts =
-  match ts with
-  | TRBracket :: ts1 => POk (rev' acc) ts1
-  | TQuestion :: _ => PFail
-  | _ =>
-      match p_expr f ts with
-      | POk a (TComma :: ts1) => p_elems f (a :: acc) ts1
-      | POk a (TRBracket :: ts1) => POk (rev' (a :: acc)) ts1
-      | POk _ _ => PFail
-      | PFail => PFail
-      | PFuel => PFuel
-      end
-  end.
-Proof. reflexivity. Qed.
 
-Lemma u_entries f acc ts : p_entries (S f) acc ts =
-  match ts with
-  | TRBrace :: ts1 => POk (rev' acc) ts1
-  | TQuestion :: _ => PFail
-  | _ =>
-      match p_expr f ts with
-      | POk k (TColon :: ts1) =>
-          match p_expr f ts1 with
-          | POk v (TComma :: ts2) => p_entries f ((k, v) :: acc) ts2
-          | POk v (TRBrace :: ts2) => POk (rev' ((k, v) :: acc)) ts2
-          | POk _ _ => PFail
-          | PFail => PFail
-          | PFuel => PFuel
-          end
-      | POk _ _ => PFail
-      | PFail => PFail
-      | PFuel => PFuel
-      end
-  end.
-Proof. reflexivity. Qed.
 
-Lemma u_fields f acc ts : p_fields (S f) acc ts =
-  match ts with
-  | TRBrace :: ts1 => POk (rev' acc) ts1
-  | TQuestion :: _ => PFail
-  | (TIdent n | TEscIdent n) :: TColon :: ts1 =>
-      match p_expr f ts1 with
-      | POk v (TComma :: ts2) => p_fields f ((n, v) :: acc) ts2
-      | POk v (TRBrace :: ts2) => POk (rev' ((n, v) :: acc)) ts2
-      | POk _ _ => PFail
-      | PFail => PFail
-      | PFuel => PFuel
-      end
-  | _ => PFail
-  end.
-Proof. reflexivity. Qed.
 
-Definition ident_forms (f : nat) (leading : bool) (ts0 : list tk) : pres expr :=
-  match msg_prefix (S (length ts0)) ts0 [] with
-  | Some (names, TComma :: TRBrace :: ts2) =>
-      let n := join_dots names in
-      POk (EStruct (if leading then 46%N :: n else n) []) ts2
-  | Some (names, ts1) =>
-      match p_fields f [] ts1 with
-      | POk fs ts2 =>
-          let n := join_dots names in
-          POk (EStruct (if leading then 46%N :: n else n) fs) ts2
-      | PFail => PFail
-      | PFuel => PFuel
-      end
-  | None =>
-      match ts0 with
-      | TIdent id :: TLParen :: ts1 =>
-          match p_args f ts1 with
-          | POk args ts2 => mk_call (if leading then 46%N :: id else id) None args ts2
-          | PFail => PFail
-          | PFuel => PFuel
-          end
-      | TIdent id :: ts1 => POk (EIdent id) ts1
-      | _ => PFail
-      end
-  end.
 
-Lemma u_primary f ts : p_primary (S f) ts =
-  match ts with
-  | TDot :: ts0 => ident_forms f true ts0
-  | TIdent _ :: _ => ident_forms f false ts
-  | TLParen :: ts1 =>
-      match p_expr f ts1 with
-      | POk e (TRParen :: ts2) => POk e ts2
-      | POk _ _ => PFail
-      | r => r
-      end
-  | TLBracket :: TComma :: TRBracket :: ts1 => POk (EList []) ts1
-  | TLBracket :: ts1 =>
-      match p_elems f [] ts1 with
-      | POk es ts2 => POk (EList es) ts2
-      | PFail => PFail
-      | PFuel => PFuel
-      end
-  | TLBrace :: TComma :: TRBrace :: ts1 => POk (EMap []) ts1
-  | TLBrace :: ts1 =>
-      match p_entries f [] ts1 with
-      | POk es ts2 => POk (EMap es) ts2
-      | PFail => PFail
-      | PFuel => PFuel
-      end
-  | _ =>
-      match literal_of ts with
-      | Some (e, r) => POk e r
-      | None => PFail
-      end
-  end.
-Proof. reflexivity. Qed.
 
 Lemma mk_call_rest id t args ts : match mk_call id t args ts with POk _ r => r = ts | PFail => True | PFuel => False end.
 Proof. unfold mk_call. destruct (expand_call id t args); auto. Qed.
